@@ -12,6 +12,7 @@ def run(res, tier):
     res.rule("KS-1", "digit loops: step == dsize and offset + limb_offset == dsize - 1 on every path")
     res.rule("CMUX-1", "cmux / cmux_assign / cmux_assign_neg: the operand added after the product is the subtrahend of the difference that was multiplied")
     res.rule("WR-4", "raw-slice vmp kernels taking limb_offset: the zero fill starts one stride after the last written limb")
+    res.rule("ROW-1", "row accessors X.at(row, ..) / X.at_mut(row, ..) in a row loop: the loop bound stays within X.dnum() under the comparisons that dominate the access")
     res.rule("RAD-1", "a cross-radix conversion skipped / taken on a radix comparison is guarded by the comparison of exactly its input and output radices")
     res.rule("RAD-2", "no call of an operation asserting equal radices of two arguments sits on a branch whose guards imply that they differ (cswap / cmux cross-radix branches)")
     res.assumptions = ["the external product multiplies by the GGSW plaintext (not decided)", "zeroed accumulators of multi-digit products: SC-3 under C12"]
@@ -32,4 +33,6 @@ def run(res, tier):
         res.floor("RAD-1", "guarded radix conversions of the external products / cswap", nr1, 4)
         nr2 = rad.rad2(p, res, pre)
         res.floor("RAD-2", "calls of radix-asserting operations", nr2, 12)
+        nrow = rad.row1(p, res, ("poulpy_core::external_product", "poulpy_core::api::external_product", "poulpy_bin_fhe::bdd_arithmetic"))
+        res.floor("ROW-1", "row accessors in row loops", nrow, 17)
         res.fn_count += n + nc
